@@ -868,7 +868,7 @@ func (e *c13Ev) expr(info *types.Info, x ast.Expr, st *c13St) c13V {
 				e.fail(x, "per-table row map indexed by something that is not a table key of the loop")
 			}
 			return c13Row{d: b.d, half: b.half, table: k.i}
-		case c13Unk:
+		case c13Unk, c13Nil: // an untracked map / slice (indexing a nil map yields the zero value)
 			return c13Unk{tag: "element"}
 		}
 		e.fail(x, "index expression outside the abstraction")
